@@ -921,7 +921,7 @@ class History:
             elif k.startswith("create:"):
                 creates.add(cache.number)
             elif k.startswith("retry:"):
-                retry[cache.circuit.circuit_id] = cache.packet_identifier
+                retry[cache.circuit.circuit_id] = (cache.packet_identifier, id(cache))
         return created, creates, retry
 
     def act_advance(self, dt: float | None = None):
@@ -961,9 +961,9 @@ class History:
                 if circ is None or (circ.state == "CLOSING" and cid not in r1):
                     lines.insert(len([l_ for l_ in lines if not l_.startswith("rx")]), f"xr {i} {cid}")
                     self.ctx.count("retry-timeout:circuit-removed")
-                elif r1.get(cid) != ident or cid not in r1:
+                elif r1.get(cid) != ident or cid not in r1:      # another cache object: the old one timed out
                     if circ.unverified_hop is not None and cid in r1:
-                        lines.append(f"xr {i} {cid} ext={w.pidx(circ.unverified_hop.peer)},{r1[cid] + 1}")
+                        lines.append(f"xr {i} {cid} ext={w.pidx(circ.unverified_hop.peer)},{r1[cid][0] + 1}")
                         self.ctx.count("retry-timeout:retried")
             mine = [p for p in w.step_sends if w.addr_idx.get(p.src) == i]
             for k, line in enumerate(lines):
